@@ -177,6 +177,48 @@ def Prov.ofName (s : String) : Option Prov := Prov.all.find? (fun p => p.name ==
     found in the working tree (regenerated on every run) -/
 def builtinRecipe : List Prov := Generated.coercerProviders.filterMap Prov.ofName
 
+/-- Predicate of one `allow_unlinked_optional(pred)` / `forbid_unlinked_optional(pred)`
+    (`create_loc_stack_checker`, provider/loc_stack_filtering.py), evaluated on the location
+    stack of `UnlinkedOptionalPolicyRequest`: it ends with the location of the destination model
+    (its type is the model) followed by the location of the destination field (field id, type). -/
+inductive FieldPred
+  | any                                     -- `P.ANY`, or no predicate at all (`bound_by_any([])`)
+  | names (ns : List Nat)                   -- `"a"` (`ExactFieldNameLSC`) / a regex (`ReFieldNameLSC`,
+                                            --   resolved over the finite table of field ids by the harness)
+  | tyCls (c : Nat)                         -- a class `C`: `ExactOriginLSC` on the field's own type
+  | under (owner : Nat) (p : FieldPred)     -- `P[Dst][p]`, `P[Dst].a`: `LocStackEndChecker`
+                                            --   [`ExactOriginLSC(Dst)` on the stack without the field, `p`]
+  | or (a b : FieldPred)                    -- several predicates of one call / `|`
+  | and (a b : FieldPred)                   -- `&`
+  | not (a : FieldPred)                     -- `~`
+  deriving Repr, Inhabited
+
+/-- `check_loc_stack` for the destination field `f` of the model class `owner` -/
+def FieldPred.holds (owner : Nat) (f : Field) : FieldPred → Bool
+  | .any => true
+  | .names ns => ns.contains f.name
+  | .tyCls c => match f.ty with
+    | .cls c' _ => c' == c
+    | _ => false
+  | .under o p => o == owner && p.holds owner f
+  | .or a b => a.holds owner f || b.holds owner f
+  | .and a b => a.holds owner f && b.holds owner f
+  | .not a => !a.holds owner f
+
+/-- one policy provider of the user recipe: `LocStackBoundingProvider(pred,
+    UnlinkedOptionalPolicyProvider(is_allowed=allow))` -/
+structure PolicyRule where
+  pred : FieldPred
+  allow : Bool
+  deriving Repr, Inhabited
+
+/-- `BasicRequestBus._send_inner` over the policy providers: a provider whose predicate does not
+    match raises a non-terminal `CannotProvide`, the first one that matches answers; when none of
+    the user recipe matches, the policy closing the builtin recipe answers. -/
+def resolveRules (owner : Nat) (f : Field) : List PolicyRule → Bool
+  | [] => Generated.builtinUnlinkedOptionalAllowed
+  | r :: rs => if r.pred.holds owner f then r.allow else resolveRules owner f rs
+
 /-- `UnlinkedOptionalPolicyRequest`: `forbid_unlinked_optional(P.ANY)` closes the builtin
     recipe; `allow_unlinked_optional(...)` of the user recipe is consulted first. -/
 inductive Policy
@@ -184,13 +226,18 @@ inductive Policy
   | allowAll                      -- allow_unlinked_optional(P.ANY)
   | allowNames (names : List Nat) -- allow_unlinked_optional("a", "b")
   | forbidAll                     -- forbid_unlinked_optional(P.ANY) given explicitly
+  | rules (rs : List PolicyRule)  -- any sequence of allow_/forbid_unlinked_optional(pred) in recipe order
   deriving Repr, Inhabited
 
-def Policy.allowed : Policy → Nat → Bool
-  | .builtin, _ => Generated.builtinUnlinkedOptionalAllowed
-  | .allowAll, _ => true
-  | .allowNames ns, n => ns.contains n || Generated.builtinUnlinkedOptionalAllowed
-  | .forbidAll, _ => false
+/-- `mediator.mandatory_provide(UnlinkedOptionalPolicyRequest(loc_stack=destination)).is_allowed`
+    for the destination field `f` of the model class `owner` — asked for **each** unlinked
+    optional field with that field's own location -/
+def Policy.allowed : Policy → Nat → Field → Bool
+  | .builtin, _, _ => Generated.builtinUnlinkedOptionalAllowed
+  | .allowAll, _, _ => true
+  | .allowNames ns, _, f => ns.contains f.name || Generated.builtinUnlinkedOptionalAllowed
+  | .forbidAll, _, _ => false
+  | .rules rs, owner, f => resolveRules owner f rs
 
 structure Cfg where
   /-- `issubclass(a, b)` on class ids (incl. the reserved ones) -/
@@ -430,23 +477,24 @@ def findSource (name : Nat) (srcFields : List Field) : Option Field :=
 /-- `ModelCoercerProvider._fetch_linkings` + `_generate_sub_plan` for the destination
     fields in order.  Both loops are `mandatory_apply_by_iterable`: one failure makes the
     whole request fail terminally. -/
-def planFields (rec : Ty → Ty → Answer) (policy : Policy) (srcFields : List Field) :
+def planFields (rec : Ty → Ty → Answer) (allowed : Field → Bool) (srcFields : List Field) :
     List Field → Option (Option (List FieldPlan))   -- none = out of fuel, some none = terminal failure
   | [] => some (some [])
   | d :: ds =>
     match findSource d.name srcFields with
     | none =>
-      -- `except CannotProvide`: required → re-raise; optional → ask the policy
+      -- `except CannotProvide`: required → re-raise; optional → ask the policy *for this field*
+      -- (`UnlinkedOptionalPolicyRequest(loc_stack=destination)`, one request per field)
       if d.required then some none
-      else if policy.allowed d.name then
-        match planFields rec policy srcFields ds with
+      else if allowed d then
+        match planFields rec allowed srcFields ds with
         | some (some ps) => some (some (.skipped d.name :: ps))
         | r => r
       else some none
     | some s =>
       match rec s.ty d.ty with
       | .ok c =>
-        match planFields rec policy srcFields ds with
+        match planFields rec allowed srcFields ds with
         | some (some ps) => some (some (.linked d.name s.name c.run :: ps))
         | r => r
       | .notFound => some none
@@ -478,7 +526,7 @@ def stepModel (rec : Ty → Ty → Answer) (cfg : Cfg) (src dst : Ty) : Step :=
   | .cls sc sa, .cls dc da =>
     match cfg.shape sc sa, cfg.shape dc da with
     | some sfs, some dfs =>
-      match planFields rec cfg.policy sfs dfs with
+      match planFields rec (cfg.policy.allowed dc) sfs dfs with
       | none => .outOfFuel
       | some none => .fail
       | some (some plan) => .ok { kind := .model, run := modelRun dc (cfg.dflt dc) plan }
